@@ -211,6 +211,59 @@ fn roots_valid(f: &[BigInt], roots_re: &[f64], roots_im: &[Complex<f64>]) -> boo
     true
 }
 
+/// `nroots f seed` ⇒ `r|s|valid`: `numerical_roots::find_roots_reim` on its own: number of real roots,
+/// of complex pairs, and whether every returned value is a finite root of f (relative residual 1e-6),
+/// complex ones genuinely non-real, all pairwise distinct
+fn do_nroots(ctx: &mut Ctx, f: &[BigInt], seed: u64) {
+    let (ans, _log) = run_rng(seed, vec![], || {
+        let poly_f = Polynomial::from_raw(f.iter().map(|b| b.to_f64().unwrap()).collect());
+        let (re, im) = find_roots_reim(poly_f);
+        format!("{}|{}|{}", re.len(), im.len(), if roots_valid(f, &re, &im) { "valid" } else { "invalid" })
+    });
+    ctx.emit("nroots", &[show_ints(f), seed.to_string()], ans);
+}
+/// squarefree integer polynomials for the root finder: x^n ± c, trinomials, cyclotomic products x^n - 1,
+/// products of distinct linear factors (all roots real), and the degree-16 fields Q(zeta_32), Q(zeta_17)
+fn gen_nroots(ctx: &mut Ctx) {
+    let mut polys: Vec<Vec<BigInt>> = vec![];
+    let mono = |n: usize, c0: i64, c1: i64| -> Vec<BigInt> {
+        let mut v = vec![BigInt::zero(); n + 1];
+        v[0] = BigInt::from(c0);
+        v[1] += BigInt::from(c1);
+        v[n] += BigInt::from(1);
+        v
+    };
+    for n in 2..=20usize {
+        polys.push(mono(n, 1, 0));
+        polys.push(mono(n, -2, 0));
+        polys.push(mono(n, -1, -1));
+        polys.push(mono(n, -1, 0));
+    }
+    for n in 2..=9i64 {
+        // (x-1)(x-2)...(x-n)
+        let mut v = vec![BigInt::from(1)];
+        for r in 1..=n {
+            let mut w = vec![BigInt::zero(); v.len() + 1];
+            for (i, c) in v.iter().enumerate() {
+                w[i + 1] += c;
+                w[i] -= c * BigInt::from(r);
+            }
+            v = w;
+        }
+        polys.push(v);
+    }
+    // Phi_17 = 1 + x + ... + x^16
+    polys.push(vec![BigInt::from(1); 17]);
+    let reps = ctx.pick(12, 120);
+    for f in &polys {
+        let extra = if f.len() == 17 { 4 } else { 1 };
+        for _ in 0..reps * extra {
+            let seed = ctx.rng.next();
+            do_nroots(ctx, f, seed);
+        }
+    }
+}
+
 fn do_muk(ctx: &mut Ctx, f: &[BigInt], kind: &str, seed: u64) {
     let (ans, _log) = run_rng(seed, vec![], || {
         let poly = Polynomial::from_raw(f.to_vec());
@@ -240,6 +293,10 @@ pub fn replay(ctx: &mut Ctx, f: &[&str]) -> bool {
         ("lll", 2) => do_lll(ctx, &parse_mat(f[1])),
         ("enum", 3) => do_enum(ctx, &parse_mat(f[1]), &parse_rat(f[2])),
         ("chval", 3) => do_chval(ctx, &parse_mat(f[1]), &parse_ints(f[2])),
+        ("nroots", 3) => match f[2].parse::<u64>() {
+            Ok(seed) => do_nroots(ctx, &parse_ints(f[1]), seed),
+            Err(_) => return false,
+        },
         ("muk", 4) => match f[3].parse::<u64>() {
             Ok(seed) => do_muk(ctx, &parse_ints(f[1]), f[2], seed),
             Err(_) => return false,
@@ -771,6 +828,7 @@ pub fn generate(ctx: &mut Ctx) {
         gen_enum(ctx);
     }
     if only.is_empty() || only == "muk" {
+        gen_nroots(ctx);
         gen_muk(ctx);
     }
 }
